@@ -30,17 +30,25 @@ let () = each_line (fun line ->
       (String.concat "," (List.map name (take shown sched)))
       (String.concat "|" (List.map (fun e -> String.concat "" (List.map name e)) ens))
       (String.concat ";" got) (if fin then 1 else 0) (String.concat "" (List.map name (enabled s)))
-  | ["CHAIN"; blocks; per; stages; n; seed] ->
+  | [("CHAIN" | "CHAINS") as ckind; blocks; per; stages; n; seed] ->
     (* the chain model under a seed-driven schedule: source + stage workers + sink + recycler *)
     let b = int_of_string blocks and per = int_of_string per and n = int_of_string n in
     let rec blocks_of i acc cur k = if i > n then List.rev (if cur = [] then acc else List.rev cur :: acc)
       else if k = per then blocks_of i (List.rev cur :: acc) [] 0 else blocks_of (i + 1) acc (nat_of_int i :: cur) (k + 1) in
     let payloads = blocks_of 1 [] [] 0 in
-    let stage s = let k = if String.length s > 1 then int_of_string (String.sub s 1 (String.length s - 1)) else 0 in
+    let stage s =
+      let body = String.sub s 1 (String.length s - 1) in
+      let k, k2 = match String.split_on_char '-' body with
+        | [a; b] -> int_of_string a, int_of_string b
+        | [a] when a <> "" -> int_of_string a, 0
+        | _ -> 0, 0 in
       match s.[0] with
-      | 'a' -> List.map (fun x -> nat_of_int (int_of_nat x + k))
+      | 'a' | 's' -> List.map (fun x -> nat_of_int (int_of_nat x + k))      (* 's' = the same function, done record by record through a Stream *)
       | 'f' -> List.filter (fun x -> int_of_nat x mod k <> 0)
+      | 'd' -> List.filter (fun x -> let v = int_of_nat x in v < k || v >= k2)
       | _ -> (fun p -> p) in
+    (* a Stream-based source ends with Stream::Poison: when the last block is exactly full it leaves one more, empty, block *)
+    let payloads = if ckind = "CHAINS" && n mod per = 0 then payloads @ [[]] else payloads in
     let fs = (if stages = "-" then [] else List.map stage (String.split_on_char ',' stages)) @ [(fun p -> p); (fun p -> p)] in
     let nw = List.length fs in
     let st = ref (int_of_string seed land 0x3fffffff) in
@@ -58,7 +66,8 @@ let () = each_line (fun line ->
         else begin decr fuel; c := List.nth en (rnd (List.length en)) end
       end
     done;
-    let out = List.map int_of_nat (List.concat (sink_seen !c)) in
+    (* the sink reads block by block (CHAIN) or record by record through the Stream model (CHAINS) *)
+    let out = List.map int_of_nat (if ckind = "CHAINS" then stream_records (sink_seen !c) else List.concat (sink_seen !c)) in
     let h = ref 0x14650FB0739D0383L in   (* same multiplicative hash as the C++ driver, 64 bit *)
     List.iter (fun v -> h := Int64.mul (Int64.logxor !h (Int64.of_int v)) 0x100000001b3L) out;
     let rec take k l = if k = 0 then [] else match l with [] -> [] | x :: r -> x :: take (k - 1) r in
